@@ -296,8 +296,10 @@ def parse_single_name_into_parts(name, strict=True):
                         controlseq = escaped.isalpha()
                         specialchar = True
 
-                    # Can we use it to determine the case?
-                    elif (case == -1) and escaped.isalpha():
+                    # Can we use it to determine the case? Not inside a plain
+                    # braced group: BibTeX skips those when looking for the case
+                    # (only top-level text and special characters count).
+                    elif (case == -1) and escaped.isalpha() and (level == 0 or specialchar):
                         if escaped.isupper():
                             case = 1
                         else:
